@@ -43,7 +43,7 @@ theorem C03_page_nodead (s : State) (hm : s.opt.mode = 0) (now : Nat) (lim : Nat
 /-- Witness of D-SCAN-DEAD: `p1, p2` written, `p1` deleted; `PrefixScan("p", 0, 1)` reports "not found"
 although `p2` is live: the tombstone consumed the limit. -/
 def sW : State :=
-  let s1 := (commit ({ opened := true } : State)
+  let s1 := (commit (openDB {} []).1
     [{ (mkRec [97] [112, 49] [120] flagSet dsKV) with txid := 1 }, { (mkRec [97] [112, 50] [121] flagSet dsKV) with txid := 1 }]).1
   (commit s1 [{ (mkRec [97] [112, 49] [] flagDelete dsKV) with txid := 2 }]).1
 
